@@ -3042,8 +3042,12 @@ class TLSConnection(TLSRecordLayer):
         psks = clientHello.getExtension(ExtensionType.pre_shared_key)
         psk_types = clientHello.getExtension(
             ExtensionType.psk_key_exchange_modes)
-        if psks and (PskKeyExchangeMode.psk_dhe_ke in psk_types.modes or
-                     PskKeyExchangeMode.psk_ke in psk_types.modes) and \
+        # a PSK is of use only with a key exchange mode both sides allow,
+        # otherwise ignore the offer and continue with a full handshake
+        if psks and ((PskKeyExchangeMode.psk_dhe_ke in psk_types.modes and
+                      "psk_dhe_ke" in settings.psk_modes) or
+                     (PskKeyExchangeMode.psk_ke in psk_types.modes and
+                      "psk_ke" in settings.psk_modes)) and \
                 (settings.pskConfigs or settings.ticketKeys):
             for i, ident in enumerate(psks.identities):
                 ticket = None
